@@ -68,7 +68,7 @@ func TestC04_P_ReadSeekModel(t *testing.T) {
 		} else {
 			fc = genFileDAG(t, 0, 200)
 		}
-		how := rapid.SampledFrom([]string{"Reify", "Reify", "NewUnixFSFile", "unixfs-preload", "Load+NodeReifier", "NewUnixFSFile(reified)"}).Draw(t, "open")
+		how := rapid.SampledFrom([]string{"Reify", "Reify", "NewUnixFSFile", "unixfs-preload", "Load+NodeReifier", "NewUnixFSFile(reified)", "NewUnixFSFile(foreign bytes node)"}).Draw(t, "open")
 		node, err := c01Open(fc.St, fc.Root, how)
 		if err != nil {
 			t.Fatalf("open: %v", err)
